@@ -9,9 +9,13 @@ FAMILY = "QBFT"
 NT_TMPL = open(os.path.join(vlib.SPECS, FAMILY, "QBFTNodeTrace.cfg.tmpl")).read()
 
 
-def cfg_node(t):
+def cfg_node(t, w=3):
     r = t[0]
-    return ("nt_n%d_i%d.cfg" % (r["n"], r["inst"]), NT_TMPL % {"N": r["n"], "Inst": r["inst"]})
+    return ("nt_n%d_i%d_w%d.cfg" % (r["n"], r["inst"], w), NT_TMPL % {"N": r["n"], "Inst": r["inst"], "W": w})
+
+
+def cfg_node_wide(t):
+    return cfg_node(t, 8)
 
 
 def node_traces(t):
@@ -30,14 +34,14 @@ def node_traces(t):
         if dec:
             d = dec[0]
             for m, to in wire:
-                if (to is None or p in to) and m["value"] == d["v"] and \
-                        ((m["type"] == "C" and m["round"] == d["round"]) or m["type"] == "D") and m not in cands:
+                if (to is None or p in to) and m["value"] == d["v"] and m["src"] != p and \
+                        ((m["type"] in ("P", "C") and m["round"] == d["round"]) or m["type"] == "D") and m not in cands:
                     cands.append(m)
         maxr = max([x["m"]["round"] for x in s["msgs"]] + [e["to"] for e in rounds] + [1]) + 1
         leads = any((r["inst"] + k) % r["n"] == p for k in range(1, maxr + 1))
         nt = [{"ev": "Reset", "eagerinput": not leads, "sid": r.get("sid", 0), "family": r.get("family"), "n": r["n"], "inst": r["inst"], "p": p,
                "input": inp[0] if inp else 0, "timeouts": sum(1 for e in rounds if e["rule"] == "round_timeout"),
-               "lastround": rounds[-1]["to"] if rounds else 1, "cands": cands[:12]}]
+               "lastround": rounds[-1]["to"] if rounds else 1, "cands": cands[:20]}]
         nt += [{"ev": "Deliver", "m": x["m"]} for x in s["msgs"]]
         nt.append({"ev": "Final", "decided": bool(dec), "v": dec[0]["v"] if dec else 0, "round": dec[0]["round"] if dec else 0})
         out.append(nt)
@@ -113,7 +117,18 @@ def validate(o, traces, schedules):
         % (o.pid, FAMILY, len(nts), sum(len(t) for t in nts), v.wall, v.states, len(v.accepted), len(v.rejected)))
     o.extra["member_transcripts"] = len(nts)
     reported, unrepro = 0, []
-    for (k, pos, reason) in v.rejected:
+    rejected = list(v.rejected)
+    if rejected:
+        # the observation is imprecise by construction (the sniffer records a message after the hand-over, on another
+        # goroutine): a transcript that only a wider re-ordering window explains is noted, not reported
+        vw = vlib.validate_traces(o.pid, FAMILY, "QBFTNodeTrace", cfg_node_wide, [nts[k] for k, _, _ in rejected], timeout=600)
+        still = {i for i, _, _ in vw.rejected}
+        for j, (k, pos, reason) in enumerate(rejected):
+            if j not in still:
+                o.notes.append("member transcript (run %s member %d) needs a re-ordering window wider than 3 entries"
+                               % (nts[k][0].get("sid"), nts[k][0]["p"]))
+        rejected = [x for j, x in enumerate(rejected) if j in still]
+    for (k, pos, reason) in rejected:
         if reported >= 3:
             break
         ti, p = origin[k], nts[k][0]["p"]
@@ -121,7 +136,7 @@ def validate(o, traces, schedules):
         sched = schedules[sid]
         t2, _, _ = vlib.run_schedules(o.pid, "conscluster", "TestExec", [sched] * 4, tag="cluster_re")
         n2 = [nt for t in t2 for nt in node_traces(t) if nt[0]["p"] == p]
-        v2 = vlib.validate_traces(o.pid, FAMILY, "QBFTNodeTrace", cfg_node, n2, timeout=600)
+        v2 = vlib.validate_traces(o.pid, FAMILY, "QBFTNodeTrace", cfg_node_wide, n2, timeout=600)
         if not v2.rejected:
             unrepro.append((sid, p, pos, reason, nts[k]))
             continue
